@@ -20,12 +20,17 @@ Extras == << <<Field("a", 0, Arr(Arr(U(8), 2), 3), 0), Field("b", 1, Arr(Arr(I(8
              <<Field("a", 1, Opt(Arr(U(3), 2)), 0), Field("b", 0, Opt(Arr(I(3), 2)), 0)>>,
              <<Field("a", 0, Arr(Dyn(F32), 2), 1), Field("b", 1, Arr(Dyn(U(32)), 2), 1)>>,
              <<Field("a", 0, Dyn(Dyn(En("Ec"))), 1), Field("b", 1, Dyn(Dyn(U(3))), 1)>>,
+             (* widths whose carrier type is the next power of two up: 10 -> 16, 20 -> 32, 40 -> 64 *)
+             <<Field("a", 0, U(10), 0), Field("b", 1, U(20), 0)>>,
+             <<Field("a", 0, I(11), 0), Field("b", 1, U(40), 0)>>,
+             <<Field("a", 1, U(9), 0), Field("b", 0, I(33), 0)>>,
+             <<Field("a", 0, U(17), 0), Field("b", 1, I(22), 0)>>,
              (* an enum that is NEVER the type of a field itself, only of array elements / optionals *)
              <<Field("a", 0, Arr(En("Eo"), 2), 1), Field("b", 1, Opt(En("Eo")), 1)>>,
              <<Field("a", 1, Dyn(En("Eo")), 1), Field("b", 0, U(3), 0)>> >>
 EnumO == [name |-> "Eo", items |-> <<[name |-> "Oa", value |-> IntOfNat(0)], [name |-> "Ob", value |-> IntOfNat(2)], [name |-> "Oc", value |-> IntOfNat(5)]>>]
 NRoot == Len(T1) + Len(Picked) + Len(Extras)
-RName(i) == (CASE i % 3 = 0 -> "R" [] i % 3 = 1 -> "Root" [] OTHER -> "MessageNumber") \o ToString(i)      \* names shorter and longer than a 4-character bus tag
+RName(i) == (CASE i % 5 = 0 -> "R" [] i % 5 = 1 -> "Root" [] i % 5 = 2 -> "MessageNumber" [] i % 5 = 3 -> "ADC" [] OTHER -> "Accel") \o ToString(i)      \* names shorter and longer than a 4-character bus tag
 RootFields(i) == IF i <= Len(T1) THEN <<Field("a", 0, T1[i], 0)>>
                  ELSE IF i > Len(T1) + Len(Picked) THEN Extras[i - Len(T1) - Len(Picked)]
                  ELSE LET q == Pairs[Picked[i - Len(T1)]] IN <<Field("a", q[3], q[1], 1), Field("b", 1 - q[3], q[2], 0)>>
@@ -52,8 +57,12 @@ MegaSchema ==
               (* the same structs bound once more, under the SAME binding name, by another protocol - after their CAN binding *)
               \o SelectSeq([i \in 1..NRoot |->
                   [name |-> RName(i), protocol |-> "uart", type |-> RName(i),
-                   fields |-> << [name |-> "id", value |-> [i |-> SidOf(i)]], [name |-> "bus", value |-> [s |-> "zz"]] >>,
-                   signals |-> <<>>]], LAMBDA im : LET i == CHOOSE i \in 1..NRoot : RName(i) = im.name IN Bound(i) /\ i % 8 = 1)]
+                   fields |-> << [name |-> "id", value |-> [i |-> SidOf(i)]], [name |-> "bus", value |-> [s |-> "zz"]],
+                                 [name |-> "endianess", value |-> [s |-> "big"]] >>,     \* concerns fcp_uart.h only, never fcp.h
+                   signals |-> <<>>]], LAMBDA im : LET i == CHOOSE i \in 1..NRoot : RName(i) = im.name IN Bound(i) /\ i % 8 = 1)
+              (* the embedded struct is bound too, and its binding is written LAST: in fcp_can.h it must still be defined before its users *)
+              \o << [name |-> "Sin", protocol |-> "can", type |-> "Sin",
+                     fields |-> << [name |-> "id", value |-> [i |-> 2000]], [name |-> "bus", value |-> [s |-> "b"]] >>, signals |-> <<>>] >>]
 HasBus(im) == im.protocol = "can" /\ \E f \in Range(im.fields) : f.name = "bus"
 TableOf(sch) == LET bound == SelectSeq(sch.impls, HasBus) IN
                 [j \in 1..Len(bound) |->
